@@ -38,3 +38,27 @@ claim("C04", "other",
       "as ambiguous_by_C09; compound family is a bounded sample of the property's space.",
       "shadow-symbolic execution of real in_unit + z3 LRA per pair vs declaration oracle",
       "DESIGN.md 4/C04", "symnum")
+
+claim("C05", "other",
+      "The real in_unit is called once, twice or three times in a row on a solver-backed magnitude "
+      "(and scale factor k); z3 decides for ALL m, k: conv(0)=0, sign preserved, conv(k*m)=k*conv(m), "
+      "u->u identity, there-and-back within tolerance, via-intermediate equals direct within tolerance, "
+      "for all ordered named offset-free pairs, a fixed compound family, fixed triples per dimension and "
+      "a synthetic exactly-consistent system (1e-12).",
+      "Planner concrete; exact reals over the code's binary constants; u->u exact for unprefixed units "
+      "and 1e-12 relative for prefixed ones (float reciprocal constants); units whose size is route "
+      "dependent because of a C09 inconsistency are skipped and counted.",
+      "shadow-symbolic execution of composed real conversions + z3 LRA/NRA", "DESIGN.md 4/C05", "symnum")
+
+claim("C09", "other",
+      "(a) One QF_LRA query over real log-size potentials with one guarded constraint per recorded "
+      "declaration decides EVERY cycle of the definition graph at once (Farkas: feasible iff no "
+      "cancelling integer combination of declarations has residual beyond its tolerances); unsat cores, "
+      "minimised by deletion, name the disagreeing chains and are replayed by multiplying them out "
+      "without a solver. (b) For every named unit of a physical dimension the real in_unit to and from "
+      "the coherent SI unit runs on a symbolic magnitude and must return the oracle's value.",
+      "Declarations are recorded by wrapping conversions.equate/translate before the unit modules are "
+      "imported; ln r enclosed to 1e-12, most permissive end used; tolerance 1e-5 per exponent degree; "
+      "dimensionless base units (radian) count as the number 1.",
+      "SMT (QF_LRA) feasibility over all declarations + unsat cores; symbolic in_unit for connectivity",
+      "DESIGN.md 4/C09", "oracle")
